@@ -526,6 +526,6 @@ func runFree(c *mcx.Ctx) {
 }
 
 func init() {
-	mcx.Register(&mcx.Driver{ID: "C16RACE", Run: runFree, Replay: func(c *mcx.Ctx, raw json.RawMessage) (string, string) { return "", "" }, Workers: 1,
+	mcx.Register(&mcx.Driver{ID: "C16RACE", NoSequence: true, Run: runFree, Replay: func(c *mcx.Ctx, raw json.RawMessage) (string, string) { return "", "" }, Workers: 1,
 		Rule: "auxiliary: the C16 operation bodies free-running under the race detector", Level: "other"})
 }
